@@ -204,6 +204,7 @@ def _np_agg(aggname, keys):
 
     @unit("C03", f"nonparametric.aggregate_intervals.{aggname}", fns=[f"{NP}.get_aggregate_prediction_intervals", f"{BASE}._get_reporting_aggregate_votes"])
     def agg(h):
+        h.default_replay = rp
         t, lo_u, up_u, self, k1, est, kind, res = nonparametric_aggregate_run(h, keys)
         if k1 == "raise":
             return h.fail("predictions.no_raise", f"raised {est}")
